@@ -305,9 +305,15 @@ def _saved_position_exact(ctx, rule):
     from . import c08
     return c08.r4_saved_position(ctx, rule)
 
+def _omen_marker(ctx, rule):
+    # a quit is resumable only if the OMEN marker is written exactly when a Markov level was interrupted (seed C12-o: written
+    # whenever the report's current pre-terminal is a Markov one - stale right after a level finished)
+    from . import c15
+    return c15.r4_omen_exit_writers(ctx, rule)
+
 def rules(tier):
     return [('C12.R1', r1_no_liveness_exit), ('C12.R2', r2_quit_flag_writers), ('C12.R3', r3_quit_points),
-            ('C12.R4', r4_thread_write_set), ('C12.R5', r5_thread_stdout), ('C12.R6', _omen_quit_order), ('C12.R7', r7_stdin_only_in_helper_thread), ('C12.R8', _saved_position_exact)]
+            ('C12.R4', r4_thread_write_set), ('C12.R5', r5_thread_stdout), ('C12.R6', _omen_quit_order), ('C12.R7', r7_stdin_only_in_helper_thread), ('C12.R8', _saved_position_exact), ('C12.R9', _omen_marker)]
 
 
 META = {
